@@ -133,6 +133,20 @@ ActionClauses(e) ==
          \o Chk(o.portNr = (IF e.act = "SetPortNr" THEN e.flag ELSE pre.portNr) /\ o.protoNr = (IF e.act = "SetProtocolNr" THEN e.flag ELSE pre.protoNr)
                 /\ o.plat = pre.plat /\ o.name = pre.name /\ o.grpBy = pre.grpBy, e, "C17.settings")
          \o Chk(o.id = pre.id /\ o.note = pre.note, e, "C16.acl-identifier-or-note-changed")
+    [] e.act = "SetType" ->       \* acl.type = "standard" | "extended"
+         LET toStd(x) == IF IsAce(x) THEN [x EXCEPT !.f = [x.f EXCEPT !.proto = 0, !.sp = NoPort, !.dp = NoPort, !.flags = <<>>, !.logs = <<>>,
+                                                                  !.dst = [k |-> "wild", w |-> AnyW, name |-> "", mem |-> <<>>]]] ELSE x
+             conv(x) == IF e.typ = "standard" /\ pre.typ = "extended" THEN toStd(x) ELSE x
+             pred == [k \in 1..Len(pre.items) |-> IF IsBlock(pre.items[k])
+                                                  THEN [pre.items[k] EXCEPT !.items = [j \in 1..Len(pre.items[k].items) |-> conv(pre.items[k].items[j])]]
+                                                  ELSE conv(pre.items[k])]
+             refused == \/ (e.typ = "standard" /\ pre.plat = "nxos")
+                        \/ (e.typ = "standard" /\ pre.typ = "extended" /\ \E k \in 1..Len(Fl(pre.items)) : IsAce(Fl(pre.items)[k]) /\ Fl(pre.items)[k].f.src.k = "group")
+         IN  Chk(refused = (e.exc # ""), e, "C17.type-change-accept-or-refuse")
+             \o (IF e.exc # "" \/ refused THEN Chk(o = pre, e, "C17.refused-type-change-left-the-list-half-converted") ELSE
+                 Compare(e, Regroup(pre, pred), o.items, old, "C17")
+                 \o Chk(o.typ = e.typ /\ o.plat = pre.plat /\ o.name = pre.name /\ o.grpBy = pre.grpBy, e, "C17.settings")
+                 \o Chk(o.id = pre.id /\ o.note = pre.note, e, "C16.acl-identifier-or-note-changed"))
     [] e.act = "SetPlatform" ->
          LET split == IF e.plat = "nxos" THEN UngroupPortsItems(pre.items) ELSE pre.items
              pred  == IF e.plat = "nxos" THEN Regroup(pre, split) ELSE split
